@@ -191,11 +191,19 @@ static In<S> make(vf::Draw& d, vf::Case& c, bool tridiag, int pat, Index n)
     }
     // overall scale
     ld scale = 1;
-    if (d.flag("scaled"))
+    // 0 unscaled, 1 any decade, 2 / 3 one of the three smallest / largest decades (where triple and quadruple products of
+    // entries leave the representable range although squares do not)
+    const long scaled = d.range("scaled", 0, 3);
+    if (scaled)
     {
         int emax = std::is_same<S, float>::value ? 12 : 100;
         d.scale10("scale", emax);
-        scale = std::pow((ld) 10, (ld) d.scale10_exp_last());
+        long e = d.scale10_exp_last();
+        if (scaled == 2)
+            e = -(emax - std::labs(e) % 3);
+        else if (scaled == 3)
+            e = emax - std::labs(e) % 3;
+        scale = std::pow((ld) 10, (ld) e);
     }
     in.scale = scale;
     Mat given = Mat::Zero(n, n);
